@@ -48,7 +48,9 @@ RtRej(e) == If(~FLeq(e.d, e.thr), "project-unproject-roundtrip")
 SubRej(e) ==
     LET m == Len(e.idx)
     IN  If(m < 1 \/ (m >= 1 /\ e.idx[1] # 0), "subsample-first-vertex")
-        \cup If(m >= 1 /\ e.vid[1] # e.vid[e.n] /\ e.idx[m] # e.n - 1, "subsample-last-vertex")
+        \* "provided the first and last vertices are distinct, they are always preserved": the last
+        \* emitted vertex is (bitwise) the last vertex of the input
+        \cup If(m >= 1 /\ e.vid[1] # e.vid[e.n] /\ e.idx[m] >= 0 /\ e.idx[m] < e.n /\ e.vid[e.idx[m] + 1] # e.vid[e.n], "subsample-last-vertex")
         \cup If(~StrictlyIncreasing(e.idx), "subsample-indices-increasing")
         \cup If(\E k \in 1..m : e.idx[k] < 0 \/ e.idx[k] >= e.n, "subsample-index-range")
         \cup If((\A k \in 1..m : e.idx[k] >= 0 /\ e.idx[k] < e.n) /\ ~NoEqualNeighbours(e.idx, e.vid), "subsample-duplicate-neighbours")
